@@ -87,6 +87,7 @@ pub fn c19(tier: &str) -> i32 {
         FlatGroup { name: "pairs".into(), size: n, chunk: 2, what: "ALL ordered pairs of grid values: symmetry of ==, == implies equal hashes, antisymmetry of partial_cmp, ordering consistent with ==, numeric comparison equal to exact mathematical comparison across integer/float types, text comparison equal to byte-wise lexicographic order".into() },
         FlatGroup { name: "triples".into(), size: n, chunk: 1, what: "ALL ordered triples: transitivity of == and of the ordering".into() },
         FlatGroup { name: "sql".into(), size: values::sql_types().len() as u64, chunk: 1, what: "per column type (INT, BIGINT, DOUBLE, TEXT): a table and a UNIQUE-indexed table holding the grid values; ORDER BY order, DISTINCT classes, = lookups (scan and index), < ranges, duplicate rejection - all against the exact reference order/equality".into() },
+        FlatGroup { name: "text-pairs".into(), size: values::text_family().len() as u64, chunk: 16, what: "ALL ordered pairs of a text family built for the comparator's 8-byte chunking: every length 0..26, all 'm' except at most one position holding 'a', 'z' or a two-byte character - ordering must be byte-wise lexicographic, equality exact, equal texts hash equally".into() },
         FlatGroup { name: "composite".into(), size: values::composite_len(), chunk: 4, what: "every ordered pair and triple of the 8 SQL column types as a composite UNIQUE key: all combinations of 2-3 literals per column stored in scattered order; every stored key is found again by the unique check (re-insert refused) and by a point query, a key not stored is accepted".into() },
     ];
     run_flat(
